@@ -362,6 +362,17 @@ func (v *authorizer) loadPoliciesV2(pbPolicies *pb.AuthorizerPolicies) error {
 	policySymbolTable := datalog.SymbolTable(pbPolicies.Symbols)
 	v.symbols = v.baseSymbols.Clone()
 	v.symbols.Extend(&policySymbolTable)
+	// the snapshot carries the whole table it was saved with. An entry that Extend
+	// drops (a default symbol, a repeated entry) shifts every later index, and an
+	// index without an entry has no meaning: both are malformed
+	if v.symbols.Len() != len(policySymbolTable) {
+		v.symbols = v.baseSymbols.Clone()
+		return fmt.Errorf("verifier: failed to load policies: %w", ErrSymbolTableOverlap)
+	}
+	if err := policiesContent(pbPolicies).checkSymbols(v.symbols); err != nil {
+		v.symbols = v.baseSymbols.Clone()
+		return fmt.Errorf("verifier: failed to load policies: %w", err)
+	}
 
 	for _, pbFact := range pbPolicies.Facts {
 		fact, err := protoFactToTokenFactV2(pbFact)
@@ -421,6 +432,37 @@ func (v *authorizer) loadPoliciesV2(pbPolicies *pb.AuthorizerPolicies) error {
 	}
 
 	return nil
+}
+
+// policiesContent gathers the datalog content of a policy snapshot as a block,
+// policy queries included, so that its symbol indexes can be checked like those
+// of a token block. Content that cannot be decoded is left out: loading it
+// reports the error.
+func policiesContent(pbPolicies *pb.AuthorizerPolicies) *Block {
+	content := &Block{facts: &datalog.FactSet{}}
+	for _, pbFact := range pbPolicies.Facts {
+		if fact, err := protoFactToTokenFactV2(pbFact); err == nil {
+			content.facts.Insert(*fact)
+		}
+	}
+	for _, pbRule := range pbPolicies.Rules {
+		if rule, err := protoRuleToTokenRuleV2(pbRule); err == nil {
+			content.rules = append(content.rules, *rule)
+		}
+	}
+	for _, pbCheck := range pbPolicies.Checks {
+		if check, err := protoCheckToTokenCheckV2(pbCheck); err == nil {
+			content.checks = append(content.checks, *check)
+		}
+	}
+	for _, pbPolicy := range pbPolicies.Policies {
+		for _, pbRule := range pbPolicy.Queries {
+			if rule, err := protoRuleToTokenRuleV2(pbRule); err == nil {
+				content.rules = append(content.rules, *rule)
+			}
+		}
+	}
+	return content
 }
 
 func (v *authorizer) SerializePolicies() ([]byte, error) {
